@@ -507,7 +507,7 @@ class ReplayBuild:
         self.built[key] = (exe, (e or "")[-2000:])
         return self.built[key]
 
-    def replay(self, harness_name, values, release=False, timeout=120):
+    def replay(self, harness_name, values, release=False, timeout=120, raw=False):
         exe, err = self._build(release)
         if not exe:
             return {"built": False, "error": err}
@@ -528,7 +528,8 @@ class ReplayBuild:
             panic = (m.group(1) + " " + m.group(2)).strip()[:300]
         unknown = "VERIF_UNKNOWN_HARNESS" in text
         reproduced = started and not ended and not assume_failed and not unknown and (panic is not None or rc is None or rc != 0)
-        return {"built": True, "profile": "release" if release else "dev", "rc": rc, "reproduced": bool(reproduced),
+        extra = {"output": text} if raw else {}
+        return {**extra, "built": True, "profile": "release" if release else "dev", "rc": rc, "reproduced": bool(reproduced),
                 "assume_failed": assume_failed, "values_exhausted": exhausted, "panic": panic,
                 "timeout": rc is None}
 
